@@ -48,6 +48,12 @@ func (s qstep) String() string {
 type qscenario struct {
 	name  string
 	steps []qstep
+	// keep: the harness holds EstablishLinkWithPeer(L, X) and (L, Y) for the
+	// whole scenario (an application that wants these links). Without it the
+	// controller closes all links with a peer when one of them is lost, so a
+	// link that replaced another one never survives the late loss of the link
+	// it replaced.
+	keep bool
 }
 
 func (s qscenario) String() string {
@@ -55,19 +61,42 @@ func (s qscenario) String() string {
 	for _, st := range s.steps {
 		p = append(p, st.String())
 	}
-	return s.name + ": " + strings.Join(p, "; ")
+	k := ""
+	if s.keep {
+		k = " [links wanted]"
+	}
+	return s.name + k + ": " + strings.Join(p, "; ")
 }
 
 var qscenarios = []qscenario{
-	{"close-by-remote", []qstep{{op: 'c', who: 0, addr: "A"}, {op: 'x', who: 0}}},
-	{"reconnect-same-key-same-address", []qstep{{op: 'c', who: 0, addr: "A"}, {op: 'c', who: 0, addr: "A"}}},
-	{"usurp-other-key-same-address", []qstep{{op: 'c', who: 0, addr: "A"}, {op: 'c', who: 1, addr: "A"}}},
-	{"two-addresses-then-close", []qstep{{op: 'c', who: 0, addr: "A"}, {op: 'c', who: 1, addr: "B"}, {op: 'x', who: 0}}},
-	{"usurp-then-close", []qstep{{op: 'c', who: 0, addr: "A"}, {op: 'c', who: 1, addr: "A"}, {op: 'x', who: 1}}},
-	{"usurp-and-back", []qstep{{op: 'c', who: 0, addr: "A"}, {op: 'c', who: 1, addr: "A"}, {op: 'c', who: 0, addr: "A"}}},
-	{"close-racing-reconnect", []qstep{{op: 'c', who: 0, addr: "A"}, {op: 'x', who: 0, with: &qstep{op: 'c', who: 0, addr: "A"}}}},
-	{"same-key-two-addresses", []qstep{{op: 'c', who: 0, addr: "A"}, {op: 'c', who: 0, addr: "B"}, {op: 'x', who: 0}}},
-	{"killed-then-reconnect", []qstep{{op: 'c', who: 0, addr: "A"}, {op: 'k', who: 0}, {op: 'c', who: 0, addr: "A"}}},
+	{name: "close-by-remote", steps: []qstep{{op: 'c', who: 0, addr: "A"}, {op: 'x', who: 0}}},
+	{name: "reconnect-same-key-same-address", steps: []qstep{{op: 'c', who: 0, addr: "A"}, {op: 'c', who: 0, addr: "A"}}},
+	{name: "usurp-other-key-same-address", steps: []qstep{{op: 'c', who: 0, addr: "A"}, {op: 'c', who: 1, addr: "A"}}},
+	{name: "two-addresses-then-close", steps: []qstep{{op: 'c', who: 0, addr: "A"}, {op: 'c', who: 1, addr: "B"}, {op: 'x', who: 0}}},
+	{name: "usurp-then-close", steps: []qstep{{op: 'c', who: 0, addr: "A"}, {op: 'c', who: 1, addr: "A"}, {op: 'x', who: 1}}},
+	{name: "usurp-and-back", steps: []qstep{{op: 'c', who: 0, addr: "A"}, {op: 'c', who: 1, addr: "A"}, {op: 'c', who: 0, addr: "A"}}},
+	{name: "close-racing-reconnect", steps: []qstep{{op: 'c', who: 0, addr: "A"}, {op: 'x', who: 0, with: &qstep{op: 'c', who: 0, addr: "A"}}}},
+	{name: "same-key-two-addresses", steps: []qstep{{op: 'c', who: 0, addr: "A"}, {op: 'c', who: 0, addr: "B"}, {op: 'x', who: 0}}},
+	{name: "killed-then-reconnect", steps: []qstep{{op: 'c', who: 0, addr: "A"}, {op: 'k', who: 0}, {op: 'c', who: 0, addr: "A"}}},
+	// replacement by a newer session from the same address, the loss of the
+	// replaced link arriving after the newer one registered, in more contexts
+	{name: "reconnect-twice-same-key-same-address", steps: []qstep{{op: 'c', who: 0, addr: "A"}, {op: 'c', who: 0, addr: "A"}, {op: 'c', who: 0, addr: "A"}}},
+	{name: "reconnect-beside-other-peer", steps: []qstep{{op: 'c', who: 1, addr: "B"}, {op: 'c', who: 0, addr: "A"}, {op: 'c', who: 0, addr: "A"}, {op: 'x', who: 1}}},
+	{name: "reconnect-same-key-second-address", steps: []qstep{{op: 'c', who: 0, addr: "A"}, {op: 'c', who: 0, addr: "B"}, {op: 'c', who: 0, addr: "B"}}},
+	{name: "reconnect-then-close-then-connect", steps: []qstep{{op: 'c', who: 0, addr: "A"}, {op: 'c', who: 0, addr: "A"}, {op: 'x', who: 0}, {op: 'c', who: 0, addr: "A"}}},
+	{name: "reconnect-racing-other-peer-close", steps: []qstep{{op: 'c', who: 0, addr: "A"}, {op: 'c', who: 1, addr: "B"}, {op: 'x', who: 1, with: &qstep{op: 'c', who: 0, addr: "A"}}}},
+}
+
+// qscenariosAll: every scenario without and with the links being wanted.
+func qscenariosAll() []qscenario {
+	var out []qscenario
+	for _, keep := range []bool{false, true} {
+		for _, sc := range qscenarios {
+			sc.keep = keep
+			out = append(out, sc)
+		}
+	}
+	return out
 }
 
 type qinst struct {
@@ -88,6 +117,14 @@ func runQuicScenario(r *vf.Run, pool []*keys.Identity, sc qscenario, rep int) {
 	}
 	defer q.Close()
 	ids := []*keys.Identity{pool[1], pool[2]}
+	if sc.keep {
+		for _, id := range ids {
+			if err := q.Keep(id.ID); err != nil {
+				r.Inconclusive(desc + ": cannot add the EstablishLinkWithPeer reference: " + err.Error())
+				return
+			}
+		}
+	}
 	var mu sync.Mutex
 	var insts []*qinst
 	owner := map[string]*qinst{}
@@ -207,8 +244,48 @@ func runQuicScenario(r *vf.Run, pool []*keys.Identity, sc qscenario, rep int) {
 					}
 				}
 			}
+			// the quic transport's own table (independent of the settling of
+			// the controller tables, see checkTransportTable)
+			mu.Lock()
+			own := map[string]*qinst{}
+			for a, in := range owner {
+				own[a] = in
+			}
+			mu.Unlock()
+			tv := checkTransportTable(q, ids, own)
+			if tv.key != "" {
+				var reported []string
+				for _, l := range q.LocalLinks() {
+					reported = append(reported, g6link.DescribeLink(l))
+				}
+				r.Violation(tv.key, when+": "+tv.what, map[string]any{"scenario": sc.String(), "links_reported_established_by_the_transport": reported})
+				failed = true
+				break
+			}
+			for _, id := range ids {
+				pl, pok := q.QT.LookupLinkWithPeer(id.ID)
+				if pok != (want[id.ID] > 0) || (pok && pl.GetContext().Err() != nil) {
+					good = false
+				}
+			}
+			if !tv.complete {
+				good = false
+			}
+			// a point is settled only once the transport has processed the loss
+			// of every closed link (so the late loss of a replaced link has
+			// happened before its successor is confirmed)
+			for _, l := range q.LocalLinks() {
+				if l != nil && l.GetContext().Err() != nil {
+					if done, _ := g6link.LossProcessed(l); !done {
+						good = false
+					}
+				}
+			}
 			if good {
 				r.Count("quic_settled_points", 1)
+				r.Count("quic_transport_table_live_links_confirmed_at_settled_points", tv.live)
+				r.Count("quic_transport_table_processed_losses_confirmed_at_settled_points", tv.lost)
+				r.Count("quic_late_losses_of_replaced_links_with_live_successor_at_settled_points", tv.lateLoss)
 				break
 			}
 			// permanence by causality, never by elapsed time: the script is
@@ -269,6 +346,108 @@ func runQuicScenario(r *vf.Run, pool []*keys.Identity, sc qscenario, rep int) {
 	r.Count("quic_scenarios", 1)
 }
 
+// tableVerdict is the outcome of one look at the quic transport's own link
+// table (Transport.LookupLinkWithAddr / LookupLinkWithPeer).
+type tableVerdict struct {
+	key, what string // non-empty: violation
+	complete  bool   // every session of the script has been reported by the transport, so every address could be judged
+	live      int    // live links confirmed to be reported for their address and peer
+	lost      int    // links with processed loss confirmed not to be reported
+	lateLoss  int    // of live: links that replaced a link with the same uuid whose loss was processed after they registered
+}
+
+// checkTransportTable judges what the quic transport itself reports against
+// the harness's ground truth. Must be called while the script is idle (no
+// Connect in flight). No settling and no time is involved; both clauses hold
+// at every moment on a correct transport:
+//
+//  1. Let in be the LAST instance the script connected from address a and l
+//     the local end of its session (known once the transport reported it).
+//     The transport registers l for a before it reports l, only a newer
+//     session from a (there is none) or l's own loss (which follows l's
+//     Close, i.e. the cancellation of l's context) may take the slot away.
+//     So if l's context is alive before AND after the lookups,
+//     LookupLinkWithAddr(a) must return l and LookupLinkWithPeer(peer of l)
+//     must return a link with that peer: a link established and not lost is
+//     reported, and the loss of an older link never removes it.
+//  2. A link whose loss the transport finished processing (hook
+//     quic.linklost.done) is never reported again, neither for its address
+//     nor for its peer.
+func checkTransportTable(q *g6link.QuicCase, ids []*keys.Identity, owner map[string]*qinst) (v tableVerdict) {
+	if !q.AllTold() {
+		return
+	}
+	v.complete = true
+	all := q.LocalLinks()
+	for addr, in := range owner {
+		l := q.LocalLink(in.r.Index)
+		if l == nil || l.RemoteAddr().String() != addr || l.GetRemotePeer() != ids[in.who].ID {
+			// the harness cannot tell which local link belongs to the instance: do not judge
+			v.complete = false
+			continue
+		}
+		p := l.GetRemotePeer()
+		before := l.GetContext().Err() == nil
+		cur, ok := q.QT.LookupLinkWithAddr(addr)
+		pl, pok := q.QT.LookupLinkWithPeer(p)
+		after := l.GetContext().Err() == nil
+		if !before || !after {
+			continue
+		}
+		switch {
+		case !ok || cur == nil:
+			v.key = "quic:transport-table/live-link-not-reported-for-its-address/no-link"
+			v.what = fmt.Sprintf("Transport.LookupLinkWithAddr(%s) reports no link although %s is the newest session from that address, is established and was not lost (not closed)", addr, g6link.DescribeLink(l))
+			return
+		case cur != l:
+			v.key = "quic:transport-table/live-link-not-reported-for-its-address/other-link"
+			v.what = fmt.Sprintf("Transport.LookupLinkWithAddr(%s) reports %s although %s is the newest session from that address, is established and was not lost (not closed)", addr, g6link.DescribeLink(cur), g6link.DescribeLink(l))
+			return
+		case !pok || pl == nil:
+			v.key = "quic:transport-table/live-link-not-reported-for-its-peer/no-link"
+			v.what = fmt.Sprintf("Transport.LookupLinkWithPeer(%s) reports no link although %s is established and was not lost (not closed)", g6link.Short(p), g6link.DescribeLink(l))
+			return
+		case pl.GetRemotePeer() != p:
+			v.key = "quic:transport-table/lookup-with-peer-returns-link-of-other-peer"
+			v.what = fmt.Sprintf("Transport.LookupLinkWithPeer(%s) reports %s", g6link.Short(p), g6link.DescribeLink(pl))
+			return
+		}
+		v.live++
+		for _, o := range all {
+			if o == l {
+				break
+			}
+			// current == false: o was no longer the current link of its address
+			// when its loss was processed, i.e. the loss came after it was replaced
+			if done, current := g6link.LossProcessed(o); done && !current && o != nil && o.GetUUID() == l.GetUUID() {
+				v.lateLoss++
+				break
+			}
+		}
+	}
+	for _, l := range all {
+		if l == nil {
+			continue
+		}
+		if done, _ := g6link.LossProcessed(l); !done {
+			continue
+		}
+		addr, p := l.RemoteAddr().String(), l.GetRemotePeer()
+		if cur, ok := q.QT.LookupLinkWithAddr(addr); ok && cur == l {
+			v.key = "quic:transport-table/lost-link-still-reported-for-its-address"
+			v.what = fmt.Sprintf("Transport.LookupLinkWithAddr(%s) still reports %s after the transport finished processing its loss", addr, g6link.DescribeLink(l))
+			return
+		}
+		if pl, ok := q.QT.LookupLinkWithPeer(p); ok && pl == l {
+			v.key = "quic:transport-table/lost-link-still-reported-for-its-peer"
+			v.what = fmt.Sprintf("Transport.LookupLinkWithPeer(%s) still reports %s after the transport finished processing its loss", g6link.Short(p), g6link.DescribeLink(l))
+			return
+		}
+		v.lost++
+	}
+	return
+}
+
 func runQuicPart(r *vf.Run, pool []*keys.Identity) {
 	reps := r.N(2, 12)
 	t0 := time.Now()
@@ -276,7 +455,7 @@ func runQuicPart(r *vf.Run, pool []*keys.Identity) {
 	var wg sync.WaitGroup
 	sem := make(chan struct{}, 6)
 	for rep := 0; rep < reps; rep++ {
-		for _, sc := range qscenarios {
+		for _, sc := range qscenariosAll() {
 			wg.Add(1)
 			sem <- struct{}{}
 			go func(sc qscenario, rep int) {
